@@ -360,6 +360,19 @@ Definition process (a : access) : outcome :=
   | ABody => body_prop
   end.
 
+(* a handler that reads one property and then another on the same request: every
+   property is a function of the request (caches only memoise), so the second
+   access sees what it would see alone — unless the first one already ended the
+   request with an error response *)
+Definition process_seq (pre : option access) (a : access) : outcome :=
+  match pre with
+  | None => process a
+  | Some a0 => match process a0 with
+               | Ok _ => process a
+               | o => o
+               end
+  end.
+
 End Pipeline.
 
 (* ------------------------------------------------------------------ *)
@@ -410,7 +423,7 @@ Definition enc_result (cfg : config) (ctype : str) (fr : framing) (s : stream) (
 Definition dec_nat_item (l : list Z) : option (nat * list Z) := dec_nat l.
 Definition dec_Z_item (l : list Z) : option (Z * list Z) := dec_Z l.
 
-(* input: memfile ; has_max ; max ; has_cl ; access ; cl_raw ; te ; ctype ; data ; sched ; jtab *)
+(* input: memfile ; has_max ; max ; has_cl ; 8*pre+access (pre = 5: none) ; cl_raw ; te ; ctype ; data ; sched ; jtab *)
 Definition corr_C12 (inp : list Z) : list Z :=
   match inp with
   | mem :: hm :: mx :: hcl :: acc :: r0 =>
@@ -431,7 +444,8 @@ Definition corr_C12 (inp : list Z) : list Z :=
             let cfg := mkCfg (Z.to_nat mem) (if Z.eqb hm 0 then None else Some (Z.to_nat mx)) in
             let fr := mkFraming (if Z.eqb hcl 0 then None else Some clraw) te in
             let st := stream_init data sc in
-            enc_result cfg ctype fr st (process (jk_of_table tab) cfg ctype fr st (dec_access acc))
+            let pre := if Z.eqb (acc / 8) 5 then None else Some (dec_access (acc / 8)) in
+            enc_result cfg ctype fr st (process_seq (jk_of_table tab) cfg ctype fr st pre (dec_access (acc mod 8)))
           | None => bad_input
           end
         | None => bad_input
